@@ -282,16 +282,15 @@ func parse(raw []byte) rtcp.Packet {
 	return pkts[0]
 }
 
-// runCC drives the real FeedbackAdapter.
-func runCC(ops []opJ) (c ccCase, panicked string) {
-	c = ccCase{Ops: ops, Errs: []int64{}, Outs: []outJ{}, info: map[string]bool{}}
-	defer func() {
-		if r := recover(); r != nil {
-			panicked = fmt.Sprint(r)
-		}
-	}()
-	ad := verifhooks.NewFeedbackAdapter()
-	idx := int64(0)
+// ccInst is one FeedbackAdapter.
+type ccInst struct {
+	ad *verifhooks.FeedbackAdapter
+}
+
+// do performs one compact operation on the adapter.  terms: its Coq term; n: how many
+// (expanded) operations it stands for; errs: offsets (below n) of OnSent calls that returned
+// an error; out: the answer of a feedback operation.
+func (x *ccInst) do(o opJ, info map[string]bool) (term string, n int, errs []int, out *outJ) {
 	send := func(o opJ, i int) {
 		h := header(o, i)
 		attrs := interceptor.Attributes{}
@@ -302,57 +301,132 @@ func runCC(ops []opJ) (c ccCase, panicked string) {
 		if o.K == "run" {
 			size += i % 5
 		}
-		if err := ad.OnSent(at(o.Dep+int64(i)*o.DDep), &h, size, attrs); err != nil {
-			c.Errs = append(c.Errs, idx)
+		if err := x.ad.OnSent(at(o.Dep+int64(i)*o.DDep), &h, size, attrs); err != nil {
+			errs = append(errs, i)
 		}
-		idx++
 	}
+	switch o.K {
+	case "sent":
+		h := header(o, 0)
+		tw := cq.None
+		if o.Ext == 1 {
+			tw = cq.Some(cq.ZU(uint64(o.Twcc)))
+		}
+		term = cq.C("Op", cq.C("Sent", cq.ZU(uint64(o.ExtID)), tw, cq.ZU(uint64(o.SSRC)),
+			cq.ZU(uint64(o.Seq)), cq.Z(int64(h.MarshalSize())), cq.Z(int64(o.Size)), cq.Z(o.Dep)))
+		send(o, 0)
+
+		return term, 1, errs, nil
+	case "run":
+		h := header(o, 0)
+		term = cq.C("SentRun", cq.ZU(uint64(o.ExtID)), cq.ZU(uint64(o.SSRC)), cq.ZU(uint64(o.Seq)),
+			cq.ZU(uint64(o.Twcc)), cq.Z(int64(h.MarshalSize())), cq.Z(int64(o.Size)), cq.Z(o.Dep), cq.Z(o.DDep),
+			cq.Z(int64(o.N)))
+		for i := 0; i < o.N; i++ {
+			send(o, i)
+		}
+		if o.N > 250 {
+			info["run>250"] = true
+		}
+
+		return term, o.N, errs, nil
+	case "twcc", "ccfb":
+		raw := o.rawBytes()
+		switch fb := parse(raw).(type) {
+		case *rtcp.TransportLayerCC:
+			acks, err := x.ad.OnTransportCCFeedback(time.Time{}, fb)
+			res := outJ{Acks: toAckJ(acks)}
+			if err != nil {
+				res.Err = 1
+				info["twcc-error"] = true
+			}
+
+			return twccTerm(fb), 1, nil, &res
+		case *rtcp.CCFeedbackReport:
+			acks := x.ad.OnRFC8888Feedback(time.Time{}, fb)
+
+			return ccfbTerm(fb), 1, nil, &outJ{Acks: toAckJ(acks)}
+		default:
+			panic("replay holds feedback the parser refuses: " + o.Raw)
+		}
+	}
+	panic("unknown cc operation " + o.K)
+}
+
+// runCC drives the real FeedbackAdapter.
+func runCC(ops []opJ) (c ccCase, panicked string) {
+	c = ccCase{Ops: ops, Errs: []int64{}, Outs: []outJ{}, info: map[string]bool{}}
+	defer func() {
+		if r := recover(); r != nil {
+			panicked = fmt.Sprint(r)
+		}
+	}()
+	x := &ccInst{ad: verifhooks.NewFeedbackAdapter()}
+	idx := int64(0)
 	for _, o := range ops {
-		switch o.K {
-		case "sent":
-			h := header(o, 0)
-			tw := cq.None
-			if o.Ext == 1 {
-				tw = cq.Some(cq.ZU(uint64(o.Twcc)))
-			}
-			c.coq = append(c.coq, cq.C("Op", cq.C("Sent", cq.ZU(uint64(o.ExtID)), tw, cq.ZU(uint64(o.SSRC)),
-				cq.ZU(uint64(o.Seq)), cq.Z(int64(h.MarshalSize())), cq.Z(int64(o.Size)), cq.Z(o.Dep))))
-			send(o, 0)
-		case "run":
-			h := header(o, 0)
-			c.coq = append(c.coq, cq.C("SentRun", cq.ZU(uint64(o.ExtID)), cq.ZU(uint64(o.SSRC)), cq.ZU(uint64(o.Seq)),
-				cq.ZU(uint64(o.Twcc)), cq.Z(int64(h.MarshalSize())), cq.Z(int64(o.Size)), cq.Z(o.Dep), cq.Z(o.DDep),
-				cq.Z(int64(o.N))))
-			for i := 0; i < o.N; i++ {
-				send(o, i)
-			}
-			if o.N > 250 {
-				c.info["run>250"] = true
-			}
-		case "twcc", "ccfb":
-			raw := o.rawBytes()
-			idx++
-			switch fb := parse(raw).(type) {
-			case *rtcp.TransportLayerCC:
-				c.coq = append(c.coq, twccTerm(fb))
-				acks, err := ad.OnTransportCCFeedback(time.Time{}, fb)
-				out := outJ{Acks: toAckJ(acks)}
-				if err != nil {
-					out.Err = 1
-					c.info["twcc-error"] = true
-				}
-				c.Outs = append(c.Outs, out)
-			case *rtcp.CCFeedbackReport:
-				c.coq = append(c.coq, ccfbTerm(fb))
-				acks := ad.OnRFC8888Feedback(time.Time{}, fb)
-				c.Outs = append(c.Outs, outJ{Acks: toAckJ(acks)})
-			default:
-				panic("replay holds feedback the parser refuses: " + o.Raw)
-			}
+		term, n, errs, out := x.do(o, c.info)
+		c.coq = append(c.coq, term)
+		for _, e := range errs {
+			c.Errs = append(c.Errs, idx+int64(e))
+		}
+		idx += int64(n)
+		if out != nil {
+			c.Outs = append(c.Outs, *out)
 		}
 	}
 
 	return c, ""
+}
+
+// ---------- several FeedbackAdapters, interleaved ----------
+
+type mopJ struct {
+	I int `json:"i"` // the adapter the operation is performed on
+	opJ
+}
+
+type mccCase struct {
+	Adapters int     `json:"adapters"`
+	Ops      []mopJ  `json:"ops"`
+	Errs     []int64 `json:"errs"`
+	Outs     []outJ  `json:"outs"`
+	coq      []string
+	info     map[string]bool
+}
+
+func runCCMulti(nad int, ops []mopJ) (c mccCase, panicked string) {
+	c = mccCase{Adapters: nad, Ops: ops, Errs: []int64{}, Outs: []outJ{}, info: map[string]bool{}}
+	defer func() {
+		if r := recover(); r != nil {
+			panicked = fmt.Sprint(r)
+		}
+	}()
+	var insts []*ccInst
+	for i := 0; i < nad; i++ {
+		insts = append(insts, &ccInst{ad: verifhooks.NewFeedbackAdapter()})
+	}
+	idx := int64(0)
+	for _, o := range ops {
+		term, n, errs, out := insts[o.I].do(o.opJ, c.info)
+		c.coq = append(c.coq, cq.T(cq.Z(int64(o.I)), term))
+		for _, e := range errs {
+			c.Errs = append(c.Errs, idx+int64(e))
+		}
+		idx += int64(n)
+		if out != nil {
+			c.Outs = append(c.Outs, *out)
+		}
+	}
+
+	return c, ""
+}
+
+func (c mccCase) toCase(buckets ...string) cq.Case {
+	cc := ccCase{Errs: c.Errs, Outs: c.Outs, coq: c.coq, info: c.info}
+	k := cc.toCase(buckets...)
+	k.JSON = c
+
+	return k
 }
 
 func (c ccCase) toCase(buckets ...string) cq.Case {
@@ -477,6 +551,152 @@ func (o opJ) packetBytes() []byte {
 	return o.rawBytes()
 }
 
+// fbInst is one rtpfb interceptor built by a factory, with its bound streams and RTCP reader.
+type fbInst struct {
+	ic      interceptor.Interceptor
+	cur     *time.Time // the clock of the factory (timeFactory option)
+	writers map[fbSKey]interceptor.RTPWriter
+	reader  interceptor.RTCPReader
+	curRaw  []byte
+}
+
+type fbSKey struct {
+	ssrc uint32
+	tw   bool
+}
+
+// newFBFactory builds an rtpfb factory whose interceptors read the returned clock.
+func newFBFactory() (*rtpfb.InterceptorFactory, *time.Time) {
+	cur := new(time.Time)
+	f, err := rtpfb.NewInterceptor(rtpfb.VerifTimeFactory(func() time.Time { return *cur }))
+	if err != nil {
+		panic(err)
+	}
+
+	return f, cur
+}
+
+func newFBInst(f *rtpfb.InterceptorFactory, cur *time.Time, id string) *fbInst {
+	ic, err := f.NewInterceptor(id)
+	if err != nil {
+		panic(err)
+	}
+	x := &fbInst{ic: ic, cur: cur, writers: map[fbSKey]interceptor.RTPWriter{}}
+	x.reader = ic.BindRTCPReader(interceptor.RTCPReaderFunc(
+		func(b []byte, a interceptor.Attributes) (int, interceptor.Attributes, error) {
+			return copy(b, x.curRaw), a, nil
+		}))
+
+	return x
+}
+
+func (x *fbInst) writer(ssrc uint32, tw bool) interceptor.RTPWriter {
+	if w, ok := x.writers[fbSKey{ssrc, tw}]; ok {
+		return w
+	}
+	info := &interceptor.StreamInfo{SSRC: ssrc}
+	if tw {
+		info.RTPHeaderExtensions = []interceptor.RTPHeaderExtension{{URI: transportCCURI, ID: 5}}
+	}
+	w := x.ic.BindLocalStream(info, interceptor.RTPWriterFunc(
+		func(_ *rtp.Header, p []byte, _ interceptor.Attributes) (int, error) { return len(p), nil }))
+	x.writers[fbSKey{ssrc, tw}] = w
+
+	return w
+}
+
+func (x *fbInst) send(o ropJ, i int) (hsize int) {
+	h := header(opJ{ExtID: 5, Ext: o.Ext, Twcc: o.Twcc, SSRC: o.SSRC, Seq: o.Seq, CSRC: o.CSRC}, i)
+	*x.cur = time.Unix(0, o.Now+int64(i)*o.DNow)
+	size := o.Size
+	if o.K == "run" {
+		size += i % 5
+	}
+	if _, err := x.writer(o.SSRC, o.TW).Write(&h, make([]byte, size), nil); err != nil {
+		panic(err)
+	}
+
+	return h.MarshalSize()
+}
+
+// do performs one operation on the instance: the Coq term of the operation and, for a read,
+// the PacketReports of the Report attribute.
+func (x *fbInst) do(o ropJ, info map[string]bool) (term string, out []repJ, isRead bool) {
+	switch o.K {
+	case "send":
+		hs := x.send(o, 0)
+		ext := cq.None
+		if o.Ext == 1 {
+			ext = cq.Some(cq.ZU(uint64(o.Twcc)))
+		}
+
+		return cq.C("RS", cq.B(o.TW), ext, cq.ZU(uint64(o.SSRC)), cq.ZU(uint64(o.Seq)),
+			cq.Z(int64(hs+o.Size)), tenc(time.Unix(0, o.Now))), nil, false
+	case "run":
+		hs := 0
+		for i := 0; i < o.N; i++ {
+			hs = x.send(o, i)
+		}
+
+		return cq.C("RRun", cq.B(o.TW), cq.ZU(uint64(o.SSRC)), cq.ZU(uint64(o.Seq)),
+			cq.ZU(uint64(o.Twcc)), cq.Z(int64(hs+o.Size)), tenc(time.Unix(0, o.Now)), cq.Z(o.DNow), cq.Z(int64(o.N))), nil, false
+	case "read":
+		x.curRaw = nil
+		var parsed []rtcp.Packet
+		for _, p := range o.Pkts {
+			raw := p.packetBytes()
+			pk := parse(raw)
+			if pk == nil {
+				panic("read holds a packet the parser refuses")
+			}
+			parsed = append(parsed, pk)
+			x.curRaw = append(x.curRaw, raw...)
+		}
+		*x.cur = time.Unix(0, o.Now)
+		now := tenc(*x.cur)
+		if len(parsed) == 1 {
+			switch fb := parsed[0].(type) {
+			case *rtcp.TransportLayerCC:
+				cs, ds := chunkTerms(fb)
+				term = cq.C("RTw", now, cq.ZU(uint64(fb.BaseSequenceNumber)),
+					cq.ZU(uint64(fb.PacketStatusCount)), cq.ZU(uint64(fb.ReferenceTime)), cs, ds)
+			case *rtcp.CCFeedbackReport:
+				term = cq.C("RCf", now, cq.ZU(uint64(fb.ReportTimestamp)), blocksTerm(fb))
+			default:
+				term = cq.C("RMulti", now, "[FOther]")
+				info["read-without-feedback"] = true
+			}
+		} else {
+			ts := make([]string, len(parsed))
+			for i, pk := range parsed {
+				ts[i] = fbpktTerm(pk)
+			}
+			term = cq.C("RMulti", now, cq.L(ts))
+			info["compound"] = true
+		}
+		buf := make([]byte, 70000)
+		_, attr, err := x.reader.Read(buf[:len(x.curRaw)], nil)
+		if err != nil {
+			panic(err)
+		}
+		out = []repJ{}
+		if rep, ok := attr.Get(rtpfb.CCFBAttributesKey).(rtpfb.Report); ok {
+			for _, p := range rep.PacketReports {
+				r := repJ{SSRC: p.SSRC, Ctr: p.SequenceNumber, Seq: p.RTPSequenceNumber, IsTWCC: p.IsTWCC,
+					Twcc: p.TWCCSequenceNumber, Size: p.Size, Dep: tz(p.Departure), Arrived: p.Arrived,
+					Arr: tz(p.Arrival), ECN: uint8(p.ECN)}
+				r.coq = strings.Join([]string{cq.ZU(uint64(p.SSRC)), cq.ZU(p.SequenceNumber), cq.ZU(uint64(p.RTPSequenceNumber)),
+					b01(p.IsTWCC), cq.ZU(uint64(p.TWCCSequenceNumber)), cq.Z(int64(p.Size)), tenc(p.Departure),
+					b01(p.Arrived), tenc(p.Arrival), cq.ZU(uint64(p.ECN))}, "; ")
+				out = append(out, r)
+			}
+		}
+
+		return term, out, true
+	}
+	panic("unknown rtpfb operation " + o.K)
+}
+
 // runFB drives the real rtpfb interceptor through its public interface.
 func runFB(ops []ropJ) (c fbCase, panicked string) {
 	c = fbCase{Ops: ops, Outs: [][]repJ{}, info: map[string]bool{}}
@@ -485,125 +705,85 @@ func runFB(ops []ropJ) (c fbCase, panicked string) {
 			panicked = fmt.Sprint(r)
 		}
 	}()
-	var cur time.Time
-	f, err := rtpfb.NewInterceptor(rtpfb.VerifTimeFactory(func() time.Time { return cur }))
-	if err != nil {
-		panic(err)
-	}
-	ic, err := f.NewInterceptor("")
-	if err != nil {
-		panic(err)
-	}
-	type skey struct {
-		ssrc uint32
-		tw   bool
-	}
-	writers := map[skey]interceptor.RTPWriter{}
-	writer := func(ssrc uint32, tw bool) interceptor.RTPWriter {
-		if w, ok := writers[skey{ssrc, tw}]; ok {
-			return w
-		}
-		info := &interceptor.StreamInfo{SSRC: ssrc}
-		if tw {
-			info.RTPHeaderExtensions = []interceptor.RTPHeaderExtension{{URI: transportCCURI, ID: 5}}
-		}
-		w := ic.BindLocalStream(info, interceptor.RTPWriterFunc(
-			func(_ *rtp.Header, p []byte, _ interceptor.Attributes) (int, error) { return len(p), nil }))
-		writers[skey{ssrc, tw}] = w
-
-		return w
-	}
-	var curRaw []byte
-	reader := ic.BindRTCPReader(interceptor.RTCPReaderFunc(
-		func(b []byte, a interceptor.Attributes) (int, interceptor.Attributes, error) {
-			return copy(b, curRaw), a, nil
-		}))
-	send := func(o ropJ, i int) (hsize int) {
-		h := header(opJ{ExtID: 5, Ext: o.Ext, Twcc: o.Twcc, SSRC: o.SSRC, Seq: o.Seq, CSRC: o.CSRC}, i)
-		cur = time.Unix(0, o.Now+int64(i)*o.DNow)
-		size := o.Size
-		if o.K == "run" {
-			size += i % 5
-		}
-		if _, err := writer(o.SSRC, o.TW).Write(&h, make([]byte, size), nil); err != nil {
-			panic(err)
-		}
-
-		return h.MarshalSize()
-	}
+	f, cur := newFBFactory()
+	x := newFBInst(f, cur, "")
 	for _, o := range ops {
-		switch o.K {
-		case "send":
-			hs := send(o, 0)
-			ext := cq.None
-			if o.Ext == 1 {
-				ext = cq.Some(cq.ZU(uint64(o.Twcc)))
-			}
-			c.coq = append(c.coq, cq.C("RS", cq.B(o.TW), ext, cq.ZU(uint64(o.SSRC)), cq.ZU(uint64(o.Seq)),
-				cq.Z(int64(hs+o.Size)), tenc(time.Unix(0, o.Now))))
-		case "run":
-			hs := 0
-			for i := 0; i < o.N; i++ {
-				hs = send(o, i)
-			}
-			c.coq = append(c.coq, cq.C("RRun", cq.B(o.TW), cq.ZU(uint64(o.SSRC)), cq.ZU(uint64(o.Seq)),
-				cq.ZU(uint64(o.Twcc)), cq.Z(int64(hs+o.Size)), tenc(time.Unix(0, o.Now)), cq.Z(o.DNow), cq.Z(int64(o.N))))
-		case "read":
-			curRaw = nil
-			var parsed []rtcp.Packet
-			for _, p := range o.Pkts {
-				raw := p.packetBytes()
-				pk := parse(raw)
-				if pk == nil {
-					panic("read holds a packet the parser refuses")
-				}
-				parsed = append(parsed, pk)
-				curRaw = append(curRaw, raw...)
-			}
-			cur = time.Unix(0, o.Now)
-			now := tenc(cur)
-			if len(parsed) == 1 {
-				switch fb := parsed[0].(type) {
-				case *rtcp.TransportLayerCC:
-					cs, ds := chunkTerms(fb)
-					c.coq = append(c.coq, cq.C("RTw", now, cq.ZU(uint64(fb.BaseSequenceNumber)),
-						cq.ZU(uint64(fb.PacketStatusCount)), cq.ZU(uint64(fb.ReferenceTime)), cs, ds))
-				case *rtcp.CCFeedbackReport:
-					c.coq = append(c.coq, cq.C("RCf", now, cq.ZU(uint64(fb.ReportTimestamp)), blocksTerm(fb)))
-				default:
-					c.coq = append(c.coq, cq.C("RMulti", now, "[FOther]"))
-					c.info["read-without-feedback"] = true
-				}
-			} else {
-				ts := make([]string, len(parsed))
-				for i, pk := range parsed {
-					ts[i] = fbpktTerm(pk)
-				}
-				c.coq = append(c.coq, cq.C("RMulti", now, cq.L(ts)))
-				c.info["compound"] = true
-			}
-			buf := make([]byte, 70000)
-			_, attr, err := reader.Read(buf[:len(curRaw)], nil)
-			if err != nil {
-				panic(err)
-			}
-			out := []repJ{}
-			if rep, ok := attr.Get(rtpfb.CCFBAttributesKey).(rtpfb.Report); ok {
-				for _, p := range rep.PacketReports {
-					r := repJ{SSRC: p.SSRC, Ctr: p.SequenceNumber, Seq: p.RTPSequenceNumber, IsTWCC: p.IsTWCC,
-						Twcc: p.TWCCSequenceNumber, Size: p.Size, Dep: tz(p.Departure), Arrived: p.Arrived,
-						Arr: tz(p.Arrival), ECN: uint8(p.ECN)}
-					r.coq = strings.Join([]string{cq.ZU(uint64(p.SSRC)), cq.ZU(p.SequenceNumber), cq.ZU(uint64(p.RTPSequenceNumber)),
-						b01(p.IsTWCC), cq.ZU(uint64(p.TWCCSequenceNumber)), cq.Z(int64(p.Size)), tenc(p.Departure),
-						b01(p.Arrived), tenc(p.Arrival), cq.ZU(uint64(p.ECN))}, "; ")
-					out = append(out, r)
-				}
-			}
+		term, out, isRead := x.do(o, c.info)
+		c.coq = append(c.coq, term)
+		if isRead {
 			c.Outs = append(c.Outs, out)
 		}
 	}
 
 	return c, ""
+}
+
+// ---------- several rtpfb interceptors (one or several factories), interleaved ----------
+
+type mropJ struct {
+	I int `json:"i"` // the interceptor the operation is performed on
+	ropJ
+}
+
+type mfbCase struct {
+	Fac  []int     `json:"fac"` // factory of every interceptor (interceptors with equal numbers share one factory)
+	Ops  []mropJ   `json:"ops"`
+	Outs [][]repJ  `json:"outs"`
+	coq  []string
+	info map[string]bool
+}
+
+// runFBMulti builds the factories and interceptors of the case and performs the interleaved
+// operations, each on the interceptor it names.
+func runFBMulti(fac []int, ops []mropJ) (c mfbCase, panicked string) {
+	c = mfbCase{Fac: fac, Ops: ops, Outs: [][]repJ{}, info: map[string]bool{}}
+	defer func() {
+		if r := recover(); r != nil {
+			panicked = fmt.Sprint(r)
+		}
+	}()
+	type facT struct {
+		f   *rtpfb.InterceptorFactory
+		cur *time.Time
+	}
+	facs := map[int]facT{}
+	var insts []*fbInst
+	for i, fi := range fac {
+		ft, ok := facs[fi]
+		if !ok {
+			f, cur := newFBFactory()
+			ft = facT{f, cur}
+			facs[fi] = ft
+		}
+		insts = append(insts, newFBInst(ft.f, ft.cur, fmt.Sprintf("pc%d", i)))
+	}
+	for _, o := range ops {
+		term, out, isRead := insts[o.I].do(o.ropJ, c.info)
+		c.coq = append(c.coq, cq.T(cq.Z(int64(o.I)), term))
+		if isRead {
+			c.Outs = append(c.Outs, out)
+		}
+	}
+
+	return c, ""
+}
+
+func (c mfbCase) toCase(buckets ...string) cq.Case {
+	outs := make([]string, len(c.Outs))
+	nrep := 0
+	for i, o := range c.Outs {
+		rs := make([]string, len(o))
+		for k, r := range o {
+			rs[k] = r.coq
+			nrep++
+		}
+		outs[i] = "[" + strings.Join(rs, "; ") + "]"
+	}
+	for b := range c.info {
+		buckets = append(buckets, b)
+	}
+
+	return cq.Case{Coq: cq.T(cq.L(c.coq), cq.L(outs)), JSON: c, Buckets: buckets, Trivial: nrep == 0}
 }
 
 func (c fbCase) toCase(buckets ...string) cq.Case {
@@ -892,7 +1072,10 @@ func depStart(r *rand.Rand) int64 {
 }
 
 // genTWCC: one TWCC-keyed history with several feedback packets.
-func genTWCC(r *rand.Rand) ([]opJ, []string) {
+func genTWCC(r *rand.Rand) ([]opJ, []string) { return genTWCCOpt(r, nil) }
+
+// genTWCCOpt: genTWCC with the first transport sequence number imposed.
+func genTWCCOpt(r *rand.Rand, firstf *uint16) ([]opJ, []string) {
 	var ops []opJ
 	tags := map[string]bool{}
 	first := uint16(r.Intn(65536)) //nolint:gosec
@@ -902,6 +1085,9 @@ func genTWCC(r *rand.Rand) ([]opJ, []string) {
 		tags["wrap"] = true
 	case 1:
 		first = uint16(r.Intn(3)) //nolint:gosec
+	}
+	if firstf != nil {
+		first = *firstf
 	}
 	n := 5 + r.Intn(60)
 	switch r.Intn(6) {
@@ -994,7 +1180,10 @@ func genTWCC(r *rand.Rand) ([]opJ, []string) {
 }
 
 // genCCFB: several SSRCs keyed by (SSRC, RTP sequence number), RFC 8888 feedback.
-func genCCFB(r *rand.Rand) ([]opJ, []string) {
+func genCCFB(r *rand.Rand) ([]opJ, []string) { return genCCFBOpt(r, nil) }
+
+// genCCFBOpt: genCCFB with the SSRCs (0, 1, ..) and the first RTP sequence number imposed.
+func genCCFBOpt(r *rand.Rand, firstf *uint16) ([]opJ, []string) {
 	var ops []opJ
 	tags := map[string]bool{}
 	ns := 1 + r.Intn(3)
@@ -1012,6 +1201,9 @@ func genCCFB(r *rand.Rand) ([]opJ, []string) {
 		if r.Intn(8) == 0 {
 			st.n = 200 + r.Intn(150)
 			tags["over-250"] = true
+		}
+		if firstf != nil {
+			st.ssrc, st.first = uint32(s), *firstf //nolint:gosec
 		}
 		streams = append(streams, st)
 		ops = append(ops, opJ{K: "run", SSRC: st.ssrc, Seq: st.first, CSRC: r.Intn(2), Size: 1 + r.Intn(1400),
@@ -1116,7 +1308,11 @@ func genCCRefresh(r *rand.Rand) ([]opJ, []string) {
 
 // genFB: a history for the rtpfb interceptor: TWCC-tracked and (SSRC, seq)-tracked streams,
 // interleaved sends, reads with TWCC / CCFB / other RTCP, compounds, retransmissions.
-func genFB(r *rand.Rand) ([]ropJ, []string) {
+func genFB(r *rand.Rand) ([]ropJ, []string) { return genFBOpt(r, nil, nil) }
+
+// genFBOpt: genFB with the first TWCC number (tseq0f) and/or the first RTP sequence number of
+// every stream (seq0f) imposed, so that several interceptors use the same numbers.
+func genFBOpt(r *rand.Rand, tseq0f, seq0f *uint16) ([]ropJ, []string) {
 	var ops []ropJ
 	tags := map[string]bool{}
 	type st struct {
@@ -1134,6 +1330,9 @@ func genFB(r *rand.Rand) ([]ropJ, []string) {
 			x.seq = uint16(65536 - r.Intn(30)) //nolint:gosec
 			tags["rtp-wrap"] = true
 		}
+		if seq0f != nil {
+			x.seq = *seq0f
+		}
 		x.first = x.seq
 		streams = append(streams, x)
 	}
@@ -1141,6 +1340,9 @@ func genFB(r *rand.Rand) ([]ropJ, []string) {
 	if r.Intn(3) == 0 {
 		tseq0 = uint16(65536 - r.Intn(40)) //nolint:gosec
 		tags["twcc-wrap"] = true
+	}
+	if tseq0f != nil {
+		tseq0 = *tseq0f
 	}
 	tcnt := 0
 	now := int64(1700000000)*1000000000 + int64(r.Intn(1000000))*1000
@@ -1354,6 +1556,215 @@ func genFBReuse(r *rand.Rand) ([]ropJ, []string) {
 	return ops, tags
 }
 
+// interleave merges the operation lists of several instances: blocks of 1..4 operations of a
+// randomly chosen instance at a time, the order within an instance preserved.
+func interleave(r *rand.Rand, n int, size func(i int) int, take func(i, k int)) {
+	pos := make([]int, n)
+	for {
+		var live []int
+		for i := 0; i < n; i++ {
+			if pos[i] < size(i) {
+				live = append(live, i)
+			}
+		}
+		if len(live) == 0 {
+			return
+		}
+		i := live[r.Intn(len(live))]
+		for b := 1 + r.Intn(4); b > 0 && pos[i] < size(i); b-- {
+			take(i, pos[i])
+			pos[i]++
+		}
+	}
+}
+
+// genFBMulti: two or three rtpfb interceptors - built by ONE factory (one registry serving
+// several peer connections) or by separate ones - each with a genFB history of its own,
+// interleaved.  Mostly the interceptors use the same SSRCs, RTP sequence numbers and TWCC
+// numbers (every sender numbers its packets from its own counters), so that anything one
+// interceptor remembers about its packets would answer feedback read on another.
+func genFBMulti(r *rand.Rand) ([]int, []mropJ, []string) {
+	n := 2
+	if r.Intn(3) == 0 {
+		n = 3
+	}
+	fac := make([]int, n)
+	tags := map[string]bool{fmt.Sprintf("interceptors-%d", n): true}
+	if r.Intn(3) == 0 {
+		for i := range fac {
+			fac[i] = r.Intn(n)
+		}
+	}
+	same := true
+	for _, f := range fac {
+		same = same && f == fac[0]
+	}
+	if same {
+		tags["one-factory"] = true
+	} else {
+		tags["several-factories"] = true
+	}
+	var tf, sf *uint16
+	if r.Intn(4) != 0 {
+		t, s := uint16(r.Intn(65536)), uint16(r.Intn(65536)) //nolint:gosec
+		if r.Intn(3) == 0 {
+			t = uint16(65536 - r.Intn(40)) //nolint:gosec
+		}
+		tf, sf = &t, &s
+		tags["same-numbers-on-every-interceptor"] = true
+	}
+	lists := make([][]ropJ, n)
+	for i := range lists {
+		var t []string
+		lists[i], t = genFBOpt(r, tf, sf)
+		for _, x := range t {
+			tags[x] = true
+		}
+	}
+	var ops []mropJ
+	interleave(r, n, func(i int) int { return len(lists[i]) }, func(i, k int) {
+		ops = append(ops, mropJ{I: i, ropJ: lists[i][k]})
+	})
+	out := []string{}
+	for t := range tags {
+		out = append(out, t)
+	}
+
+	return fac, ops, out
+}
+
+// genFBTwin: two interceptors of one factory (or of two) send packets with the SAME SSRC, RTP and
+// TWCC numbers but different sizes and departure times; feedback about those numbers is read on
+// one of them, then a read without feedback on the other (must report nothing), then the
+// other's own feedback.
+func genFBTwin(r *rand.Rand) ([]int, []mropJ, []string) {
+	tw := r.Intn(2) == 0
+	fac := []int{0, 0}
+	tags := []string{"twin", "one-factory"}
+	if r.Intn(4) == 0 {
+		fac = []int{0, 1}
+		tags = []string{"twin", "several-factories"}
+	}
+	q := uint16(r.Intn(65536)) //nolint:gosec
+	seq := uint16(r.Intn(65536)) //nolint:gosec
+	if r.Intn(3) == 0 {
+		q, seq = uint16(65536-r.Intn(4)), uint16(65536-r.Intn(4)) //nolint:gosec
+	}
+	now := int64(1700000000)*1000000000 + int64(r.Intn(1000000))*1000
+	var ops []mropJ
+	n := [2]int{1 + r.Intn(8), 1 + r.Intn(8)}
+	first := r.Intn(2)
+	sendRun := func(i int) {
+		o := ropJ{K: "run", TW: tw, SSRC: 10, Seq: seq, Size: 50 + r.Intn(1000), Now: now, DNow: int64(1 + r.Intn(2000000)), N: n[i]}
+		if tw {
+			o.Ext, o.Twcc = 1, q
+		}
+		ops = append(ops, mropJ{I: i, ropJ: o})
+		now += int64(n[i])*o.DNow + int64(r.Intn(1000000))
+	}
+	ack := func(i, cnt int) {
+		var pkt opJ
+		if tw {
+			fb := &rtcp.TransportLayerCC{
+				SenderSSRC: 1, MediaSSRC: 10, BaseSequenceNumber: q, PacketStatusCount: uint16(cnt), //nolint:gosec
+				ReferenceTime: uint32(r.Intn(1 << 20)), FbPktCount: uint8(r.Intn(256)), //nolint:gosec
+				PacketChunks: []rtcp.PacketStatusChunk{&rtcp.RunLengthChunk{
+					Type: rtcp.TypeTCCRunLengthChunk, PacketStatusSymbol: rtcp.TypeTCCPacketReceivedSmallDelta, RunLength: uint16(cnt), //nolint:gosec
+				}},
+			}
+			for k := 0; k < cnt; k++ {
+				fb.RecvDeltas = append(fb.RecvDeltas, mkDelta(r, rtcp.TypeTCCPacketReceivedSmallDelta))
+			}
+			raw := marshalTWCC(fb)
+			if raw == nil {
+				return
+			}
+			pkt = opJ{K: "twcc", Raw: hex.EncodeToString(raw)}
+		} else {
+			fb := &rtcp.CCFeedbackReport{SenderSSRC: 3,
+				ReportTimestamp: verifhooks.ToNTP32(time.Unix(0, now-int64(r.Intn(100000000))))}
+			rb := rtcp.CCFeedbackReportBlock{MediaSSRC: 10, BeginSequence: seq}
+			for k := 0; k < cnt; k++ {
+				rb.MetricBlocks = append(rb.MetricBlocks, rtcp.CCFeedbackMetricBlock{
+					Received: true, ECN: rtcp.ECN(r.Intn(4)), ArrivalTimeOffset: uint16(r.Intn(0x1FFE)), //nolint:gosec
+				})
+			}
+			fb.ReportBlocks = append(fb.ReportBlocks, rb)
+			raw := marshalCCFB(fb)
+			if raw == nil {
+				return
+			}
+			pkt = opJ{K: "ccfb", Raw: hex.EncodeToString(raw)}
+		}
+		ops = append(ops, mropJ{I: i, ropJ: ropJ{K: "read", Now: now, Pkts: []opJ{pkt}}})
+		now += int64(1 + r.Intn(20000000))
+	}
+	other := func(i int) {
+		ops = append(ops, mropJ{I: i, ropJ: ropJ{K: "read", Now: now, Pkts: []opJ{{K: "other"}}}})
+		now += int64(1 + r.Intn(20000000))
+	}
+	sendRun(first)
+	sendRun(1 - first)
+	// feedback about the shared numbers, read on one interceptor; it covers as many numbers as
+	// that interceptor sent, or as the other one sent
+	rd := r.Intn(2)
+	ack(rd, n[r.Intn(2)])
+	other(1 - rd)
+	ack(1-rd, n[1-rd])
+	other(rd)
+	if tw {
+		tags = append(tags, "twin-twcc")
+	} else {
+		tags = append(tags, "twin-rtp")
+	}
+
+	return fac, ops, tags
+}
+
+// genCCMulti: two or three FeedbackAdapters with histories of their own (genTWCC / genCCFB /
+// genCCRefresh), interleaved; mostly with the same sequence numbers (and SSRCs) on every adapter.
+func genCCMulti(r *rand.Rand) (int, []mopJ, []string) {
+	n := 2
+	if r.Intn(3) == 0 {
+		n = 3
+	}
+	tags := map[string]bool{fmt.Sprintf("adapters-%d", n): true}
+	var ff *uint16
+	if r.Intn(4) != 0 {
+		f := uint16(r.Intn(65536)) //nolint:gosec
+		if r.Intn(3) == 0 {
+			f = uint16(65536 - r.Intn(40)) //nolint:gosec
+		}
+		ff = &f
+		tags["same-numbers-on-every-adapter"] = true
+	}
+	kind := r.Intn(3) // 0: all TWCC-keyed, 1: all (SSRC, seq)-keyed, 2: mixed
+	lists := make([][]opJ, n)
+	for i := range lists {
+		var t []string
+		if kind == 0 || (kind == 2 && r.Intn(2) == 0) {
+			lists[i], t = genTWCCOpt(r, ff)
+			tags["twcc"] = true
+		} else {
+			lists[i], t = genCCFBOpt(r, ff)
+			tags["ccfb"] = true
+		}
+		for _, x := range t {
+			tags[x] = true
+		}
+	}
+	var ops []mopJ
+	interleave(r, n, func(i int) int { return len(lists[i]) }, func(i, k int) {
+		ops = append(ops, mopJ{I: i, opJ: lists[i][k]})
+	})
+	out := []string{}
+	for t := range tags {
+		out = append(out, t)
+	}
+
+	return n, ops, out
+}
+
 // recorderCCFBAt: the real rfc8888.Recorder with arrivals shortly before now.
 func recorderCCFBAt(r *rand.Rand, streams []stream, now int64) []byte {
 	rec := rfc8888.NewRecorder()
@@ -1439,7 +1850,50 @@ func main() {
 		})
 	}
 	sets = append(sets, fbSets...)
+	// histories over several instances (Check/C09MultiCheck.v)
+	const nMF = 2
+	var mfSets []*cq.Set
+	for i := 0; i < nMF; i++ {
+		mfSets = append(mfSets, &cq.Set{
+			Name: fmt.Sprintf("c09mf%d", i), Import: "IV.Check.C09MultiCheck", CaseType: "mfb_case",
+			Checks: []string{"mfb_mismatches", "mfb_spec_failures"},
+		})
+	}
+	sets = append(sets, mfSets...)
+	const nMC = 2
+	var mcSets []*cq.Set
+	for i := 0; i < nMC; i++ {
+		mcSets = append(mcSets, &cq.Set{
+			Name: fmt.Sprintf("c09mc%d", i), Import: "IV.Check.C09MultiCheck", CaseType: "mcc_case",
+			Checks: []string{"mcc_mismatches", "mcc_spec_failures"},
+		})
+	}
+	sets = append(sets, mcSets...)
 	var fails []cq.ImplFailure
+	mfCount := 0
+	addMF := func(fac []int, ops []mropJ, buckets ...string) {
+		c, p := runFBMulti(fac, ops)
+		if p != "" {
+			fails = append(fails, cq.ImplFailure{Kind: "panic", Detail: p, Case: mfbCase{Fac: fac, Ops: ops}})
+
+			return
+		}
+		set := mfSets[mfCount%nMF]
+		mfCount++
+		set.Cases = append(set.Cases, c.toCase(buckets...))
+	}
+	mcCount := 0
+	addMC := func(nad int, ops []mopJ, buckets ...string) {
+		c, p := runCCMulti(nad, ops)
+		if p != "" {
+			fails = append(fails, cq.ImplFailure{Kind: "panic", Detail: p, Case: mccCase{Adapters: nad, Ops: ops}})
+
+			return
+		}
+		set := mcSets[mcCount%nMC]
+		mcCount++
+		set.Cases = append(set.Cases, c.toCase(buckets...))
+	}
 	fbCount := 0
 	addFB := func(ops []ropJ, buckets ...string) {
 		c, p := runFB(ops)
@@ -1468,6 +1922,11 @@ func main() {
 		var probe map[string]interface{}
 		set := cq.LoadReplay(o.Replay, &probe)
 		var fbProbe fbCase
+		if set == "impl-panic" && probe["fac"] != nil {
+			set = "c09mf"
+		} else if set == "impl-panic" && probe["adapters"] != nil {
+			set = "c09mc"
+		}
 		if set == "impl-panic" {
 			cq.LoadReplay(o.Replay, &fbProbe)
 			for _, op := range fbProbe.Ops {
@@ -1485,6 +1944,14 @@ func main() {
 			var c fbCase
 			cq.LoadReplay(o.Replay, &c)
 			addFB(c.Ops, "replay")
+		case strings.HasPrefix(set, "c09mf"):
+			var c mfbCase
+			cq.LoadReplay(o.Replay, &c)
+			addMF(c.Fac, c.Ops, "replay")
+		case strings.HasPrefix(set, "c09mc"):
+			var c mccCase
+			cq.LoadReplay(o.Replay, &c)
+			addMC(c.Adapters, c.Ops, "replay")
 		}
 		cq.Write(o, "replay", sets, nil, fails)
 
@@ -1501,6 +1968,14 @@ func main() {
 			var c fbCase
 			cq.LoadReplay(f, &c)
 			addFB(c.Ops, "corpus")
+		case strings.HasPrefix(set, "c09mf"):
+			var c mfbCase
+			cq.LoadReplay(f, &c)
+			addMF(c.Fac, c.Ops, "corpus")
+		case strings.HasPrefix(set, "c09mc"):
+			var c mccCase
+			cq.LoadReplay(f, &c)
+			addMC(c.Adapters, c.Ops, "corpus")
 		}
 	}
 	ncc := o.Scale(420, 30000)
@@ -1526,8 +2001,25 @@ func main() {
 		ops, tags := genFBReuse(r)
 		addFB(ops, tags...)
 	}
+	// several instances in one process, operations interleaved (own PRNG stream: the cases above
+	// do not depend on how many of these are drawn)
+	rm := rand.New(rand.NewSource(o.Seed ^ 0x4d494e5354)) //nolint:gosec
+	for i := 0; i < o.Scale(40, 3000); i++ {
+		fac, ops, tags := genFBMulti(rm)
+		addMF(fac, ops, tags...)
+	}
+	for i := 0; i < o.Scale(16, 600); i++ {
+		fac, ops, tags := genFBTwin(rm)
+		addMF(fac, ops, tags...)
+	}
+	for i := 0; i < o.Scale(36, 3000); i++ {
+		nad, ops, tags := genCCMulti(rm)
+		addMC(nad, ops, tags...)
+	}
 	cq.Write(o, "cc: send histories (TWCC-keyed and (SSRC, seq)-keyed, wrap, holes, more than 250 in flight) with 1..6 "+
 		"parser-accepted feedback packets (real recorders and hand-structured); non-trivial = at least one "+
 		"acknowledgement of a sent packet was returned; fb: rtpfb interceptor histories (TWCC- and (SSRC, seq)-tracked streams, "+
-		"retransmissions, reads with TWCC/CCFB/other RTCP and compounds); non-trivial = at least one PacketReport", sets, nil, fails)
+		"retransmissions, reads with TWCC/CCFB/other RTCP and compounds); non-trivial = at least one PacketReport; "+
+		"mf / mc: the same histories on two or three interceptors (one factory or several) resp. FeedbackAdapters, "+
+		"interleaved, mostly with the same SSRCs and sequence numbers on every instance", sets, nil, fails)
 }
